@@ -13,6 +13,8 @@ material  law x element type x deformation alphabet x EVERY element dof as pertu
           disjoint copies of the element (copy c carries the perturbation c), which is what makes "every dof" affordable.
 operator  for every nonlinear element operator the returned tangent is compared with the Richardson difference quotient of
           the returned residual with respect to the step unknown, for every element dof.
+retype    law x element type (those whose 'rigi' and 'mass' rules differ) x every history  read . state.matrixType = other rule . read :
+          the second read gives what a state constructed with the new rule gives.
 energy    Simulations.HyperElastic, midpoint + 'gonzalez' / 'quadrature(energyTol)': free motion, |KE + W - E0| <= 1e-8 E0
           at every saved step; runs whose Newton iteration does not converge are skipped and counted.
 """
@@ -373,6 +375,11 @@ def cases(tier, seed):
     for et in BULK_TYPES:
         if thorough or et == DEFAULT_ET[Z.dim_of(et)] or et in ("TRI6", "TETRA4"):
             out.append({"kind": "ho_field", "law": "HolzapfelOgden", "elemType": et})
+    # the integration rule of a live state changed through its setter between two reads (element types whose 'rigi' and 'mass' rules differ)
+    for law in LAWS:
+        for et in RETYPE_TYPES:
+            if thorough or law != "AutoDiff" or et in ("TRI6", "TETRA4"):
+                out.append({"kind": "retype", "law": law, "elemType": et})
     # --- operators: level of the state/variant alphabet
     def level(et, default_et, op=""):
         if thorough:
@@ -431,7 +438,9 @@ def describe(tier, seed):
                 "as perturbation direction x every Gauss point is evaluated (perturbed copies of the element are stacked in one group, "
                 "so one call of the implementation serves all directions). operator: one case per (operator, law, element type); inside it "
                 "every state/variant letter x every element dof. energy: one case per (law, mesh, initial velocity, dt, stress option); "
-                "invariant checked after every step. non-trivial = some state of the case carries stress > 1e-3 of the reference stiffness "
+                "invariant checked after every step. retype: one case per (law, element type whose 'rigi' and 'mass' rules differ); inside it EVERY "
+                "history  read X at rule A . state.matrixType = B . read Y  (A != B; X in kinematics/W/dWde/d2Wde/operator, Y in W/dWde/d2Wde/operator) "
+                "on one live state, Y compared with a state constructed with rule B. non-trivial = some state of the case carries stress > 1e-3 of the reference stiffness "
                 "(operator: non-zero tangent; energy: stored energy exchanged > 1e-3 E0); distinct = fingerprint of W / tangents / energy history",
         "exhaustive": True,
         "bound": ("full product law x element type x deformation alphabet x dof (+ tilted fibres on every 2D type); operators: full product "
@@ -448,6 +457,7 @@ def describe(tier, seed):
         "alphabet": {"laws": len(LAWS), "element_types": len(BULK_TYPES), "surface_types": len(SURF_TYPES) + len(SEG_TYPES),
                      "deformation_letters_2d": len(full_letters(2)), "deformation_letters_3d": len(full_letters(3)),
                      "rotations": len(ROTS), "operators": 7, "fd_levels": len(LEVELS),
+                     "retype_element_types": len(RETYPE_TYPES), "retype_histories": 2 * len(RETYPE_FIRST) * len(RETYPE_SECOND),
                      "energy_velocities": len(ENERGY_V0), "energy_dt": len(ENERGY_DT), "energy_stress": len(ENERGY_STRESS)},
         "assumptions": [
             f"finite differences: fixed steps {H0:g}, {2 * H0:g}, {4 * H0:g} (unit-size elements; 10x smaller for the zero-step state of the "
@@ -779,6 +789,73 @@ def _run_ho_field(case):
                                                  f"directions by {err:.3e} (scale {sc:.3e})" + ("; the reference configuration is not energy/stress free" if name == "zero" else ""),
                                   quantity=nm, state=name, **dict(key, fibres=how)))
     return {"violations": _cap(v), "fingerprint": fp("ho_field", et, np.array(obs)), "nontrivial": True, "transitions": ntr, "outcome": "ok" if not v else "violation"}
+
+
+RETYPE_TYPES = ["TRI3", "TRI6", "TRI10", "TRI15", "QUAD8", "TETRA4", "TETRA10"]  # 'rigi' and 'mass' rules have different points
+RETYPE_FIRST = ["kin", "W", "S", "D", "op"]
+RETYPE_SECOND = ["W", "S", "D", "op"]
+
+
+def _run_retype(case):
+    """Every history  read X at rule A . state.matrixType = B . read Y  (A != B in {rigi, mass}; X in kinematics / W / dWde / d2Wde /
+    SecondPiolaKirchhoffStressTensor, Y in W / dWde / d2Wde / the operator) on one live state: Y is what a state constructed with rule B gives."""
+    from EasyFEA import MatrixType
+    from EasyFEA.FEM import Operators
+    from EasyFEA.Models.HyperElastic._state import HyperElasticState
+
+    law, et = case["law"], case["elemType"]
+    dim = Z.dim_of(et)
+    X, con = template(et)
+    Xe = X[con]
+    g0 = make_group(et, Xe)
+    mat = make_law(law, dim)
+    key = dict(kind="retype", law=law, elemType=et)
+    fe = _bulk_states(dim, Xe)["inhA"]
+    if not _admissible(g0, fe, dim):
+        return {"violations": [], "fingerprint": "inadmissible", "nontrivial": False, "transitions": 0, "outcome": "skipped", "skipped": "state not admissible"}
+    u = _vec(fe)
+    s0 = float(np.abs(_np(mat.Compute_d2Wde(state_of(g0, np.zeros_like(u))))).max())
+
+    def read(st, what):
+        if what == "kin":
+            return [_np(st.Compute_F()), _np(st.Compute_J()), _np(st.Compute_C()), _np(st.Compute_I1()), _np(st.Compute_I2()), _np(st.Compute_I3()), _np(st.Compute_De())]
+        if what == "op":
+            return [_np(a) for a in Operators.NonLinear.SecondPiolaKirchhoffStressTensor(mat, st)]
+        return [_np(getattr(mat, {"W": "Compute_W", "S": "Compute_dWde", "D": "Compute_d2Wde"}[what])(st))]
+
+    rules = {"rigi": MatrixType.rigi, "mass": MatrixType.mass}
+    fresh = {(b, y): read(HyperElasticState(g0, u.copy(), rules[b]), y) for b in rules for y in RETYPE_SECOND}
+    differ = any(a.shape != b.shape or np.abs(a - b).max() > 1e-6 * s0 for y in RETYPE_SECOND for a, b in zip(fresh[("rigi", y)], fresh[("mass", y)]))
+    bad, ntr, obs = [], 2 * len(RETYPE_SECOND), []
+    for a, b in (("rigi", "mass"), ("mass", "rigi")):
+        for x in RETYPE_FIRST:
+            for y in RETYPE_SECOND:
+                st = HyperElasticState(g0, u.copy(), rules[a])
+                read(st, x)
+                st.matrixType = rules[b]
+                ntr += 3
+                try:
+                    got = read(st, y)
+                except Exception as err:
+                    bad.append(f"{x}@{a} -> {y}@{b}: raised {type(err).__name__}: {str(err)[:80]}")
+                    continue
+                want = fresh[(b, y)]
+                sc = max(max(np.abs(w).max() for w in want), s0 if y != "op" else 0.0)
+                for g_, w in zip(got, want):
+                    if g_.shape != w.shape:
+                        bad.append(f"{x}@{a} -> {y}@{b}: shape {g_.shape}, a state built with '{b}' gives {w.shape}")
+                        break
+                    e = float(np.abs(g_ - w).max())
+                    if e > 1e-12 * sc:
+                        bad.append(f"{x}@{a} -> {y}@{b}: differs from a state built with '{b}' by {e:.3e} (scale {sc:.2e})")
+                        break
+                obs.append(float(np.abs(got[0]).sum()))
+    v = []
+    if bad:
+        v.append(viol("retype_stale", f"{law} {et}: after state.matrixType = <other rule> the live state does not give the values of the new rule in {len(bad)} of "
+                                      f"{2 * len(RETYPE_FIRST) * len(RETYPE_SECOND)} histories (read@rule -> read@rule), e.g. {bad[0]}", **key))
+    return {"violations": v, "fingerprint": fp("retype", law, et, np.array(obs)), "nontrivial": bool(differ), "transitions": ntr, "states": len(obs),
+            "outcome": "violation" if v else "ok"}
 
 
 # ------------------------------------------------------------------------------------------------
